@@ -17,6 +17,7 @@ import Driver.Purity
 import Driver.Schema
 import Driver.FsWrite
 import Driver.Codec
+import Driver.Cli
 open Lean
 
 def dispatch (j : Json) : Except String Json := do
@@ -34,6 +35,7 @@ def dispatch (j : Json) : Except String Json := do
   | "schema" => Driver.Schema.handle j
   | "fswrite" => Driver.FsWrite.handle j
   | "codec" => Driver.Codec.handle j
+  | "cli" => Driver.Cli.handle j
   | _ => throw s!"unknown stream {stream}"
 
 partial def loop (hin hout : IO.FS.Stream) : IO Unit := do
